@@ -6,6 +6,7 @@ import (
 	"reflect"
 	"runtime"
 	"sort"
+	"strings"
 	"time"
 	"unsafe"
 
@@ -269,7 +270,89 @@ type c10Str struct {
 	want string
 }
 
+// zoneNames collects (cloned) the zone name of every time a value holds: the
+// name is part of what is reachable from a delivered record.
+func zoneNames(v reflect.Value, out *[]string) {
+	t := v.Type()
+	if t == timeType {
+		name, _ := v.Interface().(time.Time).Zone()
+		*out = append(*out, strings.Clone(name))
+		return
+	}
+	switch t.Kind() {
+	case reflect.Pointer:
+		if !v.IsNil() {
+			zoneNames(v.Elem(), out)
+		}
+	case reflect.Struct:
+		for i := 0; i < t.NumField(); i++ {
+			zoneNames(v.Field(i), out)
+		}
+	case reflect.Slice, reflect.Array:
+		if t.Elem().Kind() == reflect.Uint8 {
+			return
+		}
+		for i := 0; i < v.Len(); i++ {
+			zoneNames(v.Index(i), out)
+		}
+	case reflect.Map:
+		keys := v.MapKeys()
+		sort.Slice(keys, func(i, j int) bool { return keys[i].String() < keys[j].String() })
+		for _, k := range keys {
+			zoneNames(v.MapIndex(k), out)
+		}
+	}
+}
+
+// c10RetainAllRead reads a whole file the way a caller that keeps everything
+// would: every record (struct copy) and its bank are retained until ReadFile
+// returns; then each record must still equal the deep copy and the zone names
+// taken at its delivery. Only then are the banks closed.
+func c10RetainAllRead(target reflect.Type, rd *DiskReader) (out ReadOutcome, changed string) {
+	type kept struct {
+		rec, shadow reflect.Value
+		zones       []string
+		rb          *avro.ResourceBank
+	}
+	var ks []kept
+	func() {
+		defer func() {
+			if p := recover(); p != nil {
+				out.Panic, out.PanicSite = p, panicSite()
+			}
+		}()
+		out.Err = avro.ReadFile(rd, reflect.New(target).Elem().Interface(), func(val unsafe.Pointer, rb *avro.ResourceBank) error {
+			rec := reflect.New(target).Elem()
+			rec.Set(reflect.NewAt(target, val).Elem())
+			k := kept{rec: rec, shadow: DeepCopy(rec), rb: rb}
+			zoneNames(rec, &k.zones)
+			ks = append(ks, k)
+			return nil
+		})
+	}()
+	for i, k := range ks {
+		if changed == "" {
+			if ok, where := EqualNorm(k.shadow, k.rec); !ok {
+				changed = fmt.Sprintf("record %d no longer equals the copy taken at delivery: %s", i, where)
+			}
+			var zn []string
+			zoneNames(k.rec, &zn)
+			for zi := range zn {
+				if changed == "" && zi < len(k.zones) && zn[zi] != k.zones[zi] {
+					changed = fmt.Sprintf("record %d: the zone name of a decoded time changed from %q to %q", i, k.zones[zi], clip(zn[zi]))
+				}
+			}
+		}
+		out.Delivered = append(out.Delivered, k.shadow)
+	}
+	for _, k := range ks {
+		k.rb.Close()
+	}
+	return out, changed
+}
+
 type c10Held struct {
+	zones  []string
 	id     int
 	rb     *avro.ResourceBank
 	closed bool
@@ -457,7 +540,16 @@ func (c10Prop) Execute(p *Plan, run *Run) any {
 			return map[string]any{"skipped": err.Error()}
 		}
 		pool.curTask = i
-		out := readAll(bf.Desc.Type, NewDiskReader(bf.Bytes, pl.Chunks[i%len(pl.Chunks)]), -1, nil)
+		out, changed := c10RetainAllRead(bf.Desc.Type, NewDiskReader(bf.Bytes, pl.Chunks[i%len(pl.Chunks)]))
+		run.Evals++
+		if changed != "" {
+			q := p.clone()
+			q.C10.Ops = nil
+			q.C10.Files = []FileSpec{fs}
+			q.C10.Chunks = []ChunkSpec{pl.Chunks[i%len(pl.Chunks)]}
+			run.Violation("c10/held-record-changed", "retain-all-read", fmt.Sprintf("file %d read once with every record and bank retained until the end: %s", i, changed), q)
+			return nil
+		}
 		if out.Panic != nil || out.Err != nil {
 			run.Probes.Inc("skipped:plain-read-fails")
 			run.Log.Add("skip")
@@ -614,6 +706,14 @@ func (c10Prop) Execute(p *Plan, run *Run) any {
 				if ok, where := EqualNorm(h.shadow, h.rec); !ok {
 					fail(opi, "c10/held-record-changed", what, fmt.Sprintf("after op %d (%s): record %d of task %d, whose bank is still open, no longer equals the copy taken at delivery: %s", opi, what, h.id, h.task, where))
 					return false
+				}
+				var zn []string
+				zoneNames(h.rec, &zn)
+				for zi := range zn {
+					if zi < len(h.zones) && zn[zi] != h.zones[zi] {
+						fail(opi, "c10/held-record-changed", what, fmt.Sprintf("after op %d (%s): record %d of task %d (bank open): the zone name of a decoded time changed from %q to %q", opi, what, h.id, h.task, h.zones[zi], clip(zn[zi])))
+						return false
+					}
 				}
 				collectRanges(h.rec, owner+":record", &ranges)
 			}
@@ -780,6 +880,7 @@ func (c10Prop) Execute(p *Plan, run *Run) any {
 				break
 			}
 			h := &c10Held{id: len(helds), rb: d.rb, task: t.idx, rec: rec, shadow: DeepCopy(rec)}
+			zoneNames(rec, &h.zones)
 			helds = append(helds, h)
 			run.Log.Add("op %d step task %d rec %d", opi, t.idx, i)
 			if i >= len(Dref[t.idx]) {
